@@ -25,7 +25,7 @@ TEMPLATES6 = [
 def run(rep, tier, seed, budget):
     ctx = Ctx.get()
     quick = tier == "quick"
-    total = budget or (80 if quick else 1200)
+    total = budget or (115 if quick else 1200)
     t_end = time.time() + total
 
     def mk_path(mk):
